@@ -11,6 +11,71 @@
 #include <iomanip>
 #endif // DF__SQF_RUNTIME__ASSEMBLY_DEBUG_ON_EXECUTE
 
+// Handles a raised runtime error: hands it to the nearest frame that accepts it or reports it with a stacktrace.
+// Returns true if execution may continue (a handler took over), false if the run has to end.
+static bool handle_runtime_error(sqf::runtime::runtime& runtime, sqf::runtime::context& context_active, sqf::runtime::diagnostics::diag_info location)
+{
+    auto& runtime_error = runtime.__runtime_error();
+    auto log_messages = runtime.log_messages;
+    runtime.log_messages.clear();
+    // Build Stacktrace
+    std::vector<sqf::runtime::frame> stacktrace_frames(context_active.frames_rbegin(), context_active.frames_rend());
+    sqf::runtime::diagnostics::stacktrace stacktrace(stacktrace_frames);
+
+    // Try to find a frame that has recover behavior for runtime error
+    // and actually accepts it (a try-catch frame only handles throw)
+    bool recovered = false;
+    size_t skip = 0;
+    while (!recovered)
+    {
+        auto res = std::find_if(context_active.frames_rbegin() + skip, context_active.frames_rend(),
+            [](sqf::runtime::frame& frame) -> bool { return frame.can_recover_runtime_error(); });
+        if (res == context_active.frames_rend())
+        {
+            break;
+        }
+        // We found a recoverable frame
+        stacktrace.value = std::make_shared<sqf::types::d_array>(log_messages.begin(), log_messages.end());
+        // Push Stacktrace to value-stack
+        context_active.push_value({ std::make_shared<sqf::types::d_stacktrace>(stacktrace) });
+
+        // Pop all frames between result and current_frame
+        size_t frames_to_pop = res - context_active.frames_rbegin();
+        for (size_t i = 0; i < frames_to_pop; i++)
+        {
+            context_active.pop_frame();
+        }
+
+        // Recover from exception
+        if (context_active.current_frame().recover_runtime_error(runtime) != sqf::runtime::frame::result::error)
+        {
+            recovered = true;
+        }
+        else
+        { // Frame declined, drop the stacktrace again and look further out
+            context_active.pop_value();
+            skip = 1;
+        }
+    }
+    if (recovered)
+    {
+        runtime_error = false;
+        return true;
+    }
+    else
+    { // No recover frame available, exit method
+#ifdef DF__SQF_RUNTIME__ASSEMBLY_DEBUG_ON_EXECUTE
+        std::cout << "\x1B[33m[ASSEMBLY ASSERT]\033[0m" <<
+            "        " <<
+            "        " <<
+            "    " << "\x1B[36mEXIT execute_do\033[0m as runtime error occured" << std::endl;
+#endif // DF__SQF_RUNTIME__ASSEMBLY_DEBUG_ON_EXECUTE
+        runtime.__logmsg(logmessage::runtime::Stacktrace(location, stacktrace));
+        runtime_error = false;
+        return false;
+    }
+}
+
 static sqf::runtime::runtime::result execute_do(sqf::runtime::runtime& runtime, size_t exit_after)
 {
     auto& context_active = runtime.context_active();
@@ -73,6 +138,15 @@ static sqf::runtime::runtime::result execute_do(sqf::runtime::runtime& runtime, 
         auto& frame = context_active.current_frame();
 
         auto result = frame.next(runtime);
+
+        if (runtime_error)
+        { // An exit behavior of the frame raised an error: it belongs to this scope, not to whatever runs next
+            if (!handle_runtime_error(runtime, context_active, context_active.current_frame().diag_info_from_position()))
+            {
+                return sqf::runtime::runtime::result::runtime_error;
+            }
+            continue;
+        }
 
         if (result == sqf::runtime::frame::result::done && context_active.frames_size() == frame_count)
         { // frame is done executing. Pop it from context and rerun.
@@ -215,61 +289,8 @@ static sqf::runtime::runtime::result execute_do(sqf::runtime::runtime& runtime, 
         }
         else
         {
-            auto log_messages = runtime.log_messages;
-            runtime.log_messages.clear();
-            // Build Stacktrace
-            std::vector<sqf::runtime::frame> stacktrace_frames(context_active.frames_rbegin(), context_active.frames_rend());
-            sqf::runtime::diagnostics::stacktrace stacktrace(stacktrace_frames);
-
-            // Try to find a frame that has recover behavior for runtime error
-            // and actually accepts it (a try-catch frame only handles throw)
-            bool recovered = false;
-            size_t skip = 0;
-            while (!recovered)
+            if (!handle_runtime_error(runtime, context_active, (*instruction)->diag_info()))
             {
-                auto res = std::find_if(context_active.frames_rbegin() + skip, context_active.frames_rend(),
-                    [](sqf::runtime::frame& frame) -> bool { return frame.can_recover_runtime_error(); });
-                if (res == context_active.frames_rend())
-                {
-                    break;
-                }
-                // We found a recoverable frame
-                stacktrace.value = std::make_shared<sqf::types::d_array>(log_messages.begin(), log_messages.end());
-                // Push Stacktrace to value-stack
-                context_active.push_value({ std::make_shared<sqf::types::d_stacktrace>(stacktrace) });
-
-                // Pop all frames between result and current_frame
-                size_t frames_to_pop = res - context_active.frames_rbegin();
-                for (size_t i = 0; i < frames_to_pop; i++)
-                {
-                    context_active.pop_frame();
-                }
-
-                // Recover from exception
-                if (context_active.current_frame().recover_runtime_error(runtime) != sqf::runtime::frame::result::error)
-                {
-                    recovered = true;
-                }
-                else
-                { // Frame declined, drop the stacktrace again and look further out
-                    context_active.pop_value();
-                    skip = 1;
-                }
-            }
-            if (recovered)
-            {
-                runtime_error = false;
-            }
-            else
-            { // No recover frame available, exit method
-#ifdef DF__SQF_RUNTIME__ASSEMBLY_DEBUG_ON_EXECUTE
-                std::cout << "\x1B[33m[ASSEMBLY ASSERT]\033[0m" <<
-                    "        " <<
-                    "        " <<
-                    "    " << "\x1B[36mEXIT execute_do\033[0m as runtime error occured" << std::endl;
-#endif // DF__SQF_RUNTIME__ASSEMBLY_DEBUG_ON_EXECUTE
-                runtime.__logmsg(logmessage::runtime::Stacktrace((*instruction)->diag_info(), stacktrace));
-                runtime_error = false;
                 return sqf::runtime::runtime::result::runtime_error;
             }
         }
